@@ -18,8 +18,8 @@ functions calling fuelled functions take the fuel and pass it on.
 """
 import hashlib, os, re
 
-WANTED = ["symbol-append", "symbol-drop", "to-id", "from-id", "id-filter", "%resolve-import"]
-NICE = {"symbol-append": "symbol_append", "symbol-drop": "symbol_drop", "to-id": "to_id", "from-id": "from_id",
+WANTED = ["rewrite-export", "symbol-append", "symbol-drop", "to-id", "from-id", "id-filter", "%resolve-import"]
+NICE = {"rewrite-export": "rewrite_export", "symbol-append": "symbol_append", "symbol-drop": "symbol_drop", "to-id": "to_id", "from-id": "from_id",
         "id-filter": "id_filter", "%resolve-import": "resolve_import"}
 
 # scheme primitive -> (Gallina name in C14/Sx.v, arity)
@@ -32,6 +32,7 @@ PRIMS = {
     ">": ("p_gt", 2), ">=": ("p_ge", 2), "<": ("p_lt", 2), "<=": ("p_le", 2), "=": ("p_num_eq", 2),
     "+": ("p_add", 2), "-": ("p_sub", 2),
     "symbol->string": ("p_symbol_to_string", 1), "string->symbol": ("p_string_to_symbol", 1),
+    "length": ("p_length", 1), "identifier->symbol": ("p_identifier_to_symbol", 1),
     "string-append": ("p_string_append", 2), "string-length": ("p_string_length", 1), "string=?": ("p_string_eq", 2),
 }
 HOFS = {"map": "p_map", "find": "p_find", "filter": "p_filter"}
@@ -459,8 +460,56 @@ class Tr:
         return hdr + "Definition %s (W : sx) %s : res sx :=\n %s.\n" % (name, params, term)
 
 
+def _walk_all(f):
+    yield f
+    if isinstance(f, list):
+        for x in f:
+            yield from _walk_all(x)
+    elif isinstance(f, tuple) and f and f[0] == "dotted":
+        for x in f[1]:
+            yield from _walk_all(x)
+        yield from _walk_all(f[2])
+
+
+def find_rewrite_export(forms):
+    """(rewrite-export x) is written inside the quasi-quoted wrapper that define-library-transformer generates
+    (meta-7.scm:321-329): every keyword is an unquoted variable `,_if` bound by the enclosing let to
+    (rename 'if).  Find that let, check every `,_v` used against its binding, and return the definition with
+    the keywords put back ((rename 'meta-define) is define: meta-7.scm `(define-syntax meta-define define)`)."""
+    for (l0, l1, top) in forms:
+        for f in _walk_all(top):
+            if not (isinstance(f, list) and len(f) >= 3 and f[0] == "let" and isinstance(f[1], list)):
+                continue
+            ren = {}
+            for b in f[1]:
+                if isinstance(b, list) and len(b) == 2 and isinstance(b[0], Sym) and isinstance(b[1], list) and len(b[1]) == 2 \
+                        and b[1][0] == "rename" and isinstance(b[1][1], list) and len(b[1][1]) == 2 and b[1][1][0] == "quote":
+                    ren[str(b[0])] = str(b[1][1][1])
+            if "_define" not in ren:
+                continue
+            for g in _walk_all(f[2:]):
+                if isinstance(g, list) and len(g) >= 3 and g[0] == [Sym("unquote"), Sym("_define")] \
+                        and isinstance(g[1], list) and g[1] and g[1][0] == "rewrite-export":
+                    def unren(e):
+                        if isinstance(e, list) and len(e) == 2 and e[0] == "unquote":
+                            if isinstance(e[1], Sym) and str(e[1]) in ren:
+                                return Sym({"meta-define": "define"}.get(ren[str(e[1])], ren[str(e[1])]))
+                            raise Unsupported("rewrite-export: unquote of %r is not a renamed keyword" % (e[1],))
+                        if isinstance(e, list):
+                            return [unren(x) for x in e]
+                        if isinstance(e, tuple):
+                            raise Unsupported("rewrite-export: dotted form")
+                        return e
+                    d = unren(g)
+                    if d[0] != "define":
+                        raise Unsupported("rewrite-export is not introduced by define")
+                    return (l0, l1, d)
+    raise Unsupported("definition of rewrite-export not found in the library wrapper of define-library-transformer")
+
+
 def translate(text):
     forms = read_all(text)
+    forms = forms + [find_rewrite_export(forms)]
     defs = {}
     for (l0, l1, f) in forms:
         if isinstance(f, list) and len(f) >= 3 and f[0] == "define" and isinstance(f[1], list) and f[1] and f[1][0] in WANTED:
